@@ -341,7 +341,9 @@ def live_step(blob, op, fname, params, flags, hist, prov, res):
         return None
     res.add_extra('live_transitions')
     try:
-        r = getattr(transform, fname)(lt, **params)
+        from ..livepool import short_watchdog
+        with short_watchdog(10.0):
+            r = getattr(transform, fname)(lt, **params)
         probs = check_step(pre, op, r)
     except Exception as e:
         probs = [('exception', '%s: %s' % (type(e).__name__, e))]
